@@ -81,6 +81,18 @@ def runScriptSeq (pw : Pid → List Wid) (u : Wid → Bool) : Nat → Cfg → Ti
     | none => c
     | some c' => runScriptSeq pw u fuel c' t
 
+def getOptNat (j : Json) (k : String) : Option Nat :=
+  match j.getObjVal? k with
+  | .ok v => (v.getNat?).toOption
+  | .error _ => none
+
+/-- Sequential histories.  The capacity/liveness oracle is environment state kept here:
+`hung` = workers whose only slot is taken by a call that never completes (no capacity),
+`dead` = workers pronounced dead (not alive).  `usable w = w ∉ hung ∧ w ∉ dead`.
+Env ops: `hang`/`unhang`/`die`/`revive`.  A pool operation may carry `"kills": w`: its task pronounces
+worker `w` dead while it runs — applied iff the task is actually executed (`run`: a worker was found;
+`call_and_wait`: always; `as_completed`: a worker could be obtained).  `run` on a pool without any live
+worker fails in `wait_until_alive` *before* its `try`: it does not start (`not_started`). -/
 def handleSeq (j : Json) : Except String Json := do
   let nw ← Driver.getNat j "nworkers"
   let pools ← parsePools j
@@ -88,21 +100,50 @@ def handleSeq (j : Json) : Except String Json := do
   let ops ← Driver.getArr j "ops"
   let mut c : Cfg := ⟨fun _ => {}, fun _ => {}⟩
   let mut out : Array Json := #[]
+  let mut hung : List Nat := []
+  let mut dead : List Nat := []
   for oj in ops do
-    let script ← parseOp pw oj
-    let u := usableOf (← getBools oj "usable")
-    let th := c.T 0
-    let before := th.results.length
-    -- could `next_idle_worker(maybe_acquire=True)` of each pool obtain a worker right now?
+    let opn ← Driver.getStr oj "op"
+    let envOp := opn == "hang" || opn == "unhang" || opn == "die" || opn == "revive"
+    let mut results : List Res := []
+    let mut notStarted := false
+    let mut stuck := false
+    let hung0 := hung
+    let dead0 := dead
+    let u : Wid → Bool := fun w => !hung0.contains w && !dead0.contains w
     let obtainable := (List.range pools.length).map fun p =>
       (pw p).any fun w => isAvailable (c.W w) p && u w
-    c := ⟨c.W, upd c.T 0 { th with script := script }⟩
-    c := runScriptSeq pw u 100000 c 0
-    let th' := c.T 0
-    let stuck := th'.cur.isSome || !th'.script.isEmpty
+    if envOp then
+      let w ← Driver.getNat oj "w"
+      if opn == "hang" then hung := w :: hung
+      else if opn == "unhang" then hung := hung.filter (· != w)
+      else if opn == "die" then dead := w :: dead
+      else dead := dead.filter (· != w)
+    else
+      let p ← Driver.getNat oj "p"
+      if opn == "run" && !((pw p).any fun w => !dead0.contains w) then
+        notStarted := true
+      else
+        let script ← parseOp pw oj
+        let th := c.T 0
+        let before := th.results.length
+        c := ⟨c.W, upd c.T 0 { th with script := script }⟩
+        c := runScriptSeq pw u 100000 c 0
+        let th' := c.T 0
+        stuck := th'.cur.isSome || !th'.script.isEmpty
+        results := th'.results.drop before
+        let ran := match opn with
+          | "run" => (match results.head? with | some (.worker (some _)) => true | _ => false)
+          | "call_and_wait" => true
+          | "as_completed" => obtainable.getD p false
+          | _ => false
+        match getOptNat oj "kills" with
+        | some w => if ran then dead := w :: dead
+        | none => pure ()
     out := out.push (Json.mkObj ([
-      ("results", Json.arr ((th'.results.drop before).map resJson).toArray),
-      ("exited", match th'.exited with | none => Json.null | some p => toJson p),
+      ("results", Json.arr (results.map resJson).toArray),
+      ("not_started", Json.bool notStarted),
+      ("dead", toJson ((List.range nw).map fun w => dead.contains w)),
       ("stuck", Json.bool stuck), ("pre_obtainable", toJson obtainable)] ++ obsJson nw pools.length pw c.W))
   return Json.mkObj [("obs", Json.arr out)]
 
